@@ -285,7 +285,7 @@ fn gen_c20(large: bool) -> GenCfg {
         abort_pct: 0,
         build_pct: 100,
         op_weights: [70, 30, 0, 0, 0],
-        avail_mem: vec![(1, vec![None])],
+        avail_mem: vec![(3, vec![None]), (1, vec![Some(0), Some(4096), Some(usize::MAX)])],
         ..GenCfg::small()
     }
 }
